@@ -13,7 +13,7 @@ from .. import prog as PG
 FWD_FAMILIES = PG.FAMILIES_ALL + PG.FAMILIES_FWD_ONLY
 FWD_SINGLE = ['un', 'kink', 'special', 'unp', 'unfwd', 'bin', 'bcast', 'binc', 'pow', 'powreg', 'neg', 'abs', 'minmax', 'get', 'T', 'reshape', 'buf', 'set',
               'rmw', 'sum', 'prod', 'trace', 'dot', 'dotc', 'dotnd', 'outer', 'inv', 'solve', 'det', 'logdet', 'expm', 'qr', 'chol', 'eigh',
-              'svd', 'svdfull', 'lu', 'fft', 'tile', 'diag', 'tri', 'symvec', 'umax', 'iop', 'solvec']
+              'svd', 'svdfull', 'lu', 'fft', 'tile', 'diag', 'tri', 'symvec', 'umax', 'iop', 'solvec', 'shift']
 REV_SINGLE = ['un', 'kink', 'special', 'unp', 'bin', 'bcast', 'binc', 'pow', 'neg', 'get', 'T', 'reshape', 'buf', 'set', 'rmw', 'sum', 'prod', 'trace',
               'dot', 'dotc', 'outer', 'inv', 'solve', 'det', 'logdet', 'qr', 'chol', 'eigh', 'svd', 'lu', 'fft', 'tile', 'diag',
               'symvec']
@@ -109,7 +109,7 @@ def _guard_reverse(*a):
 
 
 @st.composite
-def meta_cases(draw, tier, first=None, families=None, max_len=6, reverse_mode=False, Dmax=None, Pmin=1, Dmin=1, growth=False):
+def meta_cases(draw, tier, first=None, families=None, max_len=6, reverse_mode=False, Dmax=None, Pmin=1, Dmin=1, growth=False, Dlist=None):
     allow_bcast = (not reverse_mode) or (not KF.is_open('KF-setitem-broadcast-reverse'))
     fams = families
     if fams is None:
@@ -121,6 +121,8 @@ def meta_cases(draw, tier, first=None, families=None, max_len=6, reverse_mode=Fa
     if Dmax is None:
         Dmax = (4 if reverse_mode else 7) if tier == 'quick' else (6 if reverse_mode else 10)
     D = draw(st.sampled_from([d for d in ([10, 9, 10, 8, 6] if growth else [4, 3, 5, 6, 7, 2, 1, 8, 9, 10]) if Dmin <= d <= Dmax]))
+    if Dlist:
+        D = draw(st.sampled_from(list(Dlist)))
     P = draw(st.sampled_from([p for p in [2, 3, 1] if p >= Pmin]))
     case['D'], case['P'] = D, P
     case['hi'] = [draw(gen.higher_coeffs((D - 1, P) + p.shape[1:], gen.coeff_elements(1.0))) for p in pr['pts']]
